@@ -7,6 +7,7 @@ the clock has advanced by the acknowledgement wait; new requests are refused in 
 closing again is harmless; a loss is reported exactly once - not at all during a reset - and every
 request ends by its timeout.
 """
+import priv
 import hostdrive
 from props.c11 import run_generic, replay  # noqa: F401
 
@@ -56,7 +57,7 @@ def reset_scenarios(ctx):
                     for i in range(1, nreq + 1):
                         mk, Rsp, kw = K["PZ"[i - 1]]
                         w.start(i, mk(i), 3.0 + i)
-                        w.rx(streams.ack(w.p._pack_seq))
+                        w.rx(streams.ack(priv.pack_seq(w.p)))
                     w.start_reset()
                     during = []            # (what, number of reports) while reset() is running
                     if point == "before-ack":
@@ -65,7 +66,7 @@ def reset_scenarios(ctx):
                         if point == "after-ack-timeout":
                             w.tick()       # the acknowledgement wait of the reset frame expires
                         else:
-                            w.rx(streams.ack(w.p._pack_seq))
+                            w.rx(streams.ack(priv.pack_seq(w.p)))
                         if point != "none-then-after":
                             m = w.mark(); w.lost(); during.append(("loss while reset() awaits the disconnect", w.log[m:].count("APPLOST")))
                     if close_too and not w.reset_task.done():
@@ -79,7 +80,7 @@ def reset_scenarios(ctx):
                         during.append(("timer during the reset", w.log[m:].count("APPLOST")))
                     reset_done = w.reset_task.done()
                     after = None
-                    if reset_done and w.api._uart is not None and w.api._app is not None:
+                    if reset_done and priv.get(w.api, "api", "uart") is not None and priv.get(w.api, "api", "app") is not None:
                         m = w.mark(); w.lost(); after = w.log[m:].count("APPLOST")
                     for _ in range(40):
                         if not any(not tk.done() for tk in w.tasks.values()) or not w.tick():
